@@ -23,7 +23,7 @@ import time
 VERIF = os.path.dirname(os.path.dirname(os.path.abspath(__file__)))
 REPO = os.environ.get("VERIF_REPO", "/repo")
 WORK = os.environ.get("VERIF_WORK", "/var/tmp/automerge-verif")
-HARNESS_DIR = os.path.join(VERIF, "harness")
+HARNESS_DIR = os.environ.get("VERIF_HARNESS_DIR", os.path.join(VERIF, "harness"))  # override: harness experiments on a copy
 # where evidence / replay files go (overridden for runs against seeded mutants so /verif stays clean)
 EVIDENCE_DIR = os.environ.get("VERIF_EVIDENCE_DIR", os.path.join(VERIF, "evidence"))
 REPLAY_DIR = os.environ.get("VERIF_REPLAY_DIR", os.path.join(VERIF, "replays"))
